@@ -355,6 +355,38 @@ func buildValSpecs() []valSpec {
 			},
 			Logfmt: func(p logfmt.Pair) string { return timeTextIs(p.Val, t.t) }})
 	}
+	for _, t := range []struct {
+		n string
+		t time.Time
+	}{{"year-12345", time.Date(12345, 6, 7, 8, 9, 10, 11, time.UTC)}, {"year-minus-50", time.Date(-50, 6, 7, 8, 9, 10, 11, time.UTC)}} {
+		t := t
+		// years outside 0..9999 cannot be parsed back by package time: the text itself is compared
+		want := t.t.Format(time.RFC3339Nano)
+		add(valSpec{Name: "time:" + t.n, Kind: "time", Mk: func() any { return t.t },
+			JSON: func(j any) string {
+				if s, ok := j.(string); !ok || s != want {
+					return fmt.Sprintf("time not preserved: %v, logged %s", j, want)
+				}
+				return ""
+			},
+			Logfmt: func(p logfmt.Pair) string {
+				if p.Val != want {
+					return fmt.Sprintf("time not preserved: %q, logged %s", p.Raw, want)
+				}
+				return ""
+			}})
+	}
+	for _, lv := range []slog.Level{slog.WarnLevel, slog.Level(4242)} {
+		lv := lv
+		add(valSpec{Name: fmt.Sprintf("level:%d", int(lv)), Kind: "stringer", Mk: func() any { return lv },
+			JSON: func(j any) string { return jsonStringIs(j, lv.String()) },
+			Logfmt: func(p logfmt.Pair) string {
+				if p.Val != lv.String() {
+					return fmt.Sprintf("level value not preserved: %q, logged %s", p.Raw, lv.String())
+				}
+				return ""
+			}})
+	}
 	for _, d := range []time.Duration{1500 * time.Millisecond, 0, 1, math.MinInt64, math.MaxInt64} {
 		d := d
 		add(valSpec{Name: fmt.Sprintf("duration:%d", int64(d)), Kind: "duration", Plain: d == 1500*time.Millisecond, Mk: func() any { return d },
